@@ -290,8 +290,6 @@ class VC:
     def assume_inv(self, k, env):
         for nm, inv in self.loops[k].get('inv', []):
             C().assume(self.ev(inv, env))
-        for nm, h in self.loops[k].get('hints', []):
-            C().assume(self.ev(h, env))
 
     def assume_done(self, k, rng, t, env):
         C().assume(t.e == z3.If(rng.hi >= rng.lo, rng.hi, rng.lo))
